@@ -227,7 +227,7 @@ type outcome struct {
 }
 
 // OpTimeout bounds one operation (a key object that never returns from Sign/SetIndex is a violation, not a reason to hang).
-var OpTimeout = 10 * time.Minute
+var OpTimeout = 3 * time.Minute
 
 func apply(k *xmss.XMSS, op Op) outcome {
 	ch := make(chan outcome, 1)
